@@ -310,6 +310,14 @@ partial def nestJsonL (kind : Value.Val) : Core.Nest (List Sym) → Json
   | .leaf l => Json.arr (l.map (symJson kind)).toArray
   | .node l => Json.arr (l.map (nestJsonL kind)).toArray
 
+/-- the four progress queries, in the order the harness makes them -/
+def queryJson (s : Crop.St (List Sym)) : Crop.St (List Sym) × Json :=
+  let (s1, p) := Crop.calcProgress s
+  let (s2, ready) := Crop.isReady s1
+  match Crop.missingResults s2 with
+  | (s3, .error e) => (s3, Json.mkObj [("sown", toJson p.sown), ("results", toJson p.results), ("ready", toJson ready), ("missing", err (cropErr e))])
+  | (s3, .ok ms) => (s3, Json.mkObj [("sown", toJson p.sown), ("results", toJson p.results), ("ready", toJson ready), ("missing", toJson ms)])
+
 def cropOp (P : Crop.Perms) (kind : Value.Val) (k : Nat) (s : Crop.St (List Sym)) (op : Json) : Crop.St (List Sym) × Json :=
   let f : List Nat → List Sym := fun loc => if k == 0 then [Sym.r loc] else (List.range k).map (Sym.c loc)
   let nlL : List Sym → List Sym := fun r => r.map (symNanLikeK kind k)
@@ -355,12 +363,11 @@ def cropOp (P : Crop.Perms) (kind : Value.Val) (k : Nat) (s : Crop.St (List Sym)
       match Crop.checkBad d with
       | .ok (d', bad) => ({ s with dir := some d' }, Json.mkObj [("bad", toJson (bad.mergeSort (· ≤ ·)))])
       | .error e => (s, err (cropErr e))
-  | "query" =>
-    let (s1, p) := Crop.calcProgress s
-    let (s2, ready) := Crop.isReady s1
-    match Crop.missingResults s2 with
-    | (s3, .error e) => (s3, Json.mkObj [("sown", toJson p.sown), ("results", toJson p.results), ("ready", toJson ready), ("missing", err (cropErr e))])
-    | (s3, .ok ms) => (s3, Json.mkObj [("sown", toJson p.sown), ("results", toJson p.results), ("ready", toJson ready), ("missing", toJson ms)])
+  | "query" => queryJson s
+  | "stalequery" =>
+    -- the same queries through a handle made before the crop was sown (nothing loaded yet); that handle is a copy
+    -- each time, so the history's own handle is untouched
+    (s, (queryJson { s with obj := { bs := none, nb := none, rem := none, shuffle := 0 } }).2)
   | "reap" =>
     let o : Crop.ReapOpts := { allowIncomplete := getBool op "allow_incomplete", wait := getBool op "wait",
                                cleanUp := (op.getObjValAs? Bool "clean_up").toOption }
